@@ -16,7 +16,7 @@ static vh::Run *RR;
 struct Model {
 	unsigned H; bool acceptor;
 	std::vector<int> deltas;
-	enum { E_IN_HB, E_IN_TR_X, E_IN_APP, E_SEND, E_IN_TR_TEST, E_TICK0 };
+	enum { E_IN_HB, E_IN_TR_X, E_IN_APP, E_SEND, E_IN_TR_TEST, E_IN_AHEAD, E_TICK0 };
 	Model(unsigned h, bool acc) : H(h), acceptor(acc)
 	{
 		int t = (int)(H + H / 5);
@@ -25,7 +25,7 @@ struct Model {
 	int nevents() const { return E_TICK0 + (int)deltas.size(); }
 	std::string evname(int e) const
 	{
-		switch (e) { case E_IN_HB: return "in-hb"; case E_IN_TR_X: return "in-testreq(X)"; case E_IN_APP: return "in-app"; case E_SEND: return "send"; case E_IN_TR_TEST: return "in-testreq(TEST)"; }
+		switch (e) { case E_IN_HB: return "in-hb"; case E_IN_TR_X: return "in-testreq(X)"; case E_IN_APP: return "in-app"; case E_SEND: return "send"; case E_IN_TR_TEST: return "in-testreq(TEST)"; case E_IN_AHEAD: return "in-app-ahead"; }
 		return "wait" + std::to_string(deltas[e - E_TICK0]) + "s+tick";
 	}
 	std::string cfgname() const { return std::string(acceptor ? "acc" : "ini") + "-H" + std::to_string(H); }
@@ -41,7 +41,7 @@ struct Model {
 		feed_wire(w.inbound("A", 1, std::string("98=0") + SOH + "108=" + std::to_string(H) + SOH));
 		w.take_out();
 		// reference supervisor
-		long long last_sent = sim::now_s(), recv_base = sim::now_s(); bool pending = false;
+		long long last_sent = sim::now_s(), recv_base = sim::now_s(); bool pending = false, traffic_since_tr = false;
 		std::string clause, mode, detail; int idn = 0;
 		for (size_t i = 0; i < h.size(); ++i) {
 			int ev = h[i]; const bool last = i + 1 == h.size();
@@ -49,18 +49,24 @@ struct Model {
 			const long e = w.ses->nr();
 			if (verbose) fprintf(stderr, "  event %zu: %s   t=%lld idle_send=%lld idle_recv=%lld pending=%d state=%s\n", i, evname(ev).c_str(), sim::now_s() - 1700000000LL, sim::now_s() - last_sent, sim::now_s() - recv_base, pending,
 				Session::get_session_state_string((States::SessionStates)w.ses->st()).c_str());
-			bool exp_hb = false, exp_tr = false, exp_lo = false, exp_hb_id = false; std::string want_id; bool is_tick = false;
+			bool exp_hb = false, exp_tr = false, exp_lo = false, exp_either = false, exp_hb_id = false; std::string want_id; bool is_tick = false;
 			switch (ev) {
-			case E_IN_HB: feed_wire(w.inbound("0", e, "")); recv_base = sim::now_s(); pending = false; break;
-			case E_IN_TR_X: case E_IN_TR_TEST: want_id = ev == E_IN_TR_X ? "X" : "TEST"; feed_wire(w.inbound("1", e, "112=" + want_id + SOH)); recv_base = sim::now_s(); exp_hb_id = true; break;
-			case E_IN_APP: feed_wire(w.inbound("D", e, World::nos_body("A" + std::to_string(i)))); recv_base = sim::now_s(); break;
+			case E_IN_HB: feed_wire(w.inbound("0", e, "")); recv_base = sim::now_s(); pending = false; traffic_since_tr = false; break;
+			case E_IN_TR_X: case E_IN_TR_TEST: want_id = ev == E_IN_TR_X ? "X" : "TEST"; feed_wire(w.inbound("1", e, "112=" + want_id + SOH)); recv_base = sim::now_s(); exp_hb_id = true; if (pending) traffic_since_tr = true; break;
+			case E_IN_APP: feed_wire(w.inbound("D", e, World::nos_body("A" + std::to_string(i)))); recv_base = sim::now_s(); if (pending) traffic_since_tr = true; break;
+			// an application message two numbers ahead: the session asks for a resend and waits for it (state resend_request_sent);
+			// supervision must go on in that state as in any other
+			case E_IN_AHEAD: feed_wire(w.inbound("D", e + 2, World::nos_body("G" + std::to_string(i)))); recv_base = sim::now_s(); if (pending) traffic_since_tr = true; break;
 			case E_SEND: w.ses->send(World::nos("S" + std::to_string(++idn))); break;
 			default: {
 				is_tick = true;
 				sim::advance_s(deltas[ev - E_TICK0]);
 				const long long now = sim::now_s();
 				exp_hb = now - last_sent >= (long long)H;
-				if (5 * (now - recv_base) > 6 * (long long)H) { if (pending) exp_lo = true; else exp_tr = true; }
+				// The TestRequest is "unanswered for the same period" when nothing at all arrived since it was sent: Logout.  When other
+				// traffic (but no answering Heartbeat) arrived in between and the line then went quiet again, the property does not say
+				// whether the old TestRequest still counts: a new TestRequest and a Logout are both accepted, silence is not.
+				if (5 * (now - recv_base) > 6 * (long long)H) { if (pending && !traffic_since_tr) exp_lo = true; else if (pending) exp_either = true; else exp_tr = true; }
 				w.ses->tick();
 				break; }
 			}
@@ -77,7 +83,10 @@ struct Model {
 			st.outcome = std::string(got_lo ? "logout" : got_tr ? "testreq" : got_hb ? "heartbeat" : got_hb_id ? "hb-reply" : "quiet");
 			if (last) {
 				auto V = [&](const char *c, const char *m, const std::string& d) { if (clause.empty()) { clause = c; mode = m; detail = d; } };
-				if (is_tick) {
+				if (is_tick && exp_either) {
+					if (!got_tr && !got_lo) V("testrequest-when-idle-receive", "no-testrequest", "nothing received for more than 1.2 H after other traffic had followed an unanswered TestRequest: neither a TestRequest nor a Logout");
+					if (got_lo && !w.ses->is_shutdown()) V("logout-when-testrequest-unanswered", "logout-without-termination", "Logout sent but the session goes on");
+				} else if (is_tick) {
 					if (exp_hb && !got_hb && !got_tr && !got_lo) V("heartbeat-when-idle-send", "no-heartbeat-after-H-idle", "idle_send >= H but nothing was sent");
 					if (!exp_hb && got_hb) V("heartbeat-when-idle-send", "heartbeat-before-H-idle", "Heartbeat although something was sent less than H seconds ago");
 					if (exp_tr && !got_tr) V("testrequest-when-idle-receive", got_lo ? "logout-instead-of-testrequest" : "no-testrequest", "nothing received for more than 1.2 H, no TestRequest pending");
@@ -86,12 +95,13 @@ struct Model {
 					if (!exp_lo && (got_lo || w.ses->is_shutdown())) V("logout-when-testrequest-unanswered", pending ? "logout-before-testrequest-period-elapsed" : "logout-without-testrequest", "Logout/termination although the TestRequest period has not elapsed");
 				} else {
 					if (exp_hb_id && !(got_hb_id && got_id == want_id)) V("testrequest-answered-with-same-id", "no-heartbeat-with-testreqid", "expected Heartbeat with 112=" + want_id + ", got " + (got_hb_id ? "112=" + got_id : "none"));
-					if (ev == E_IN_HB && w.ses->st() != States::st_continuous) V("heartbeat-clears-pending-testrequest", "state-not-continuous-after-heartbeat", Session::get_session_state_string((States::SessionStates)w.ses->st()));
+					if (ev == E_IN_HB && w.ses->st() != States::st_continuous && w.ses->st() != States::st_resend_request_sent) V("heartbeat-clears-pending-testrequest", "state-not-continuous-after-heartbeat", Session::get_session_state_string((States::SessionStates)w.ses->st()));
 					if (got_tr || got_lo) V("no-supervision-action-outside-tick", "unexpected-testrequest-or-logout", "");
 				}
 			}
-			if (exp_tr && got_tr) { pending = true; recv_base = sim::now_s(); }
-			if (exp_tr != got_tr || exp_lo != got_lo || (w.ses->is_shutdown() && !exp_lo)) { if (!last) { st.enabled = false; break; } }	// prefix already deviated
+			if ((exp_tr || exp_either) && got_tr) { pending = true; traffic_since_tr = false; recv_base = sim::now_s(); }
+			if (exp_either) { if (!got_tr && !got_lo && !last) { st.enabled = false; break; } if (got_lo) exp_lo = true; }
+			else if (exp_tr != got_tr || exp_lo != got_lo || (w.ses->is_shutdown() && !exp_lo)) { if (!last) { st.enabled = false; break; } }	// prefix already deviated
 		}
 		if (!st.enabled) { w.teardown(); return st; }
 		if (!clause.empty()) {
@@ -103,7 +113,7 @@ struct Model {
 		}
 		const long long now = sim::now_s(); const long long cap = 2 * H + 3;
 		st.key = cfgname() + "|st" + std::to_string(w.ses->st()) + "|sd" + std::to_string(w.ses->is_shutdown()) + "|is" + std::to_string(std::min(cap, now - last_sent)) + "|ir" + std::to_string(std::min(cap, now - recv_base))
-			+ "|p" + std::to_string(pending) + "|lr" + std::to_string(std::min<long long>(cap, now - w.ses->get_last_received().secs())) + "|ls" + std::to_string(std::min<long long>(cap, now - w.ses->get_last_sent().secs()));
+			+ "|p" + std::to_string(pending) + std::to_string(traffic_since_tr) + "|lr" + std::to_string(std::min<long long>(cap, now - w.ses->get_last_received().secs())) + "|ls" + std::to_string(std::min<long long>(cap, now - w.ses->get_last_sent().secs()));
 		w.teardown();
 		return st;
 	}
